@@ -356,6 +356,16 @@ impl Table {
     }
 }
 
+/// A node handle for building `message::Response` values (the type itself lives in a private module).
+pub fn handle(id: [u8; INFO_HASH_LEN], addr: SocketAddr) -> NodeHandle {
+    NodeHandle::new(id.into(), addr)
+}
+
+/// The parts of a node handle.
+pub fn handle_parts(handle: &NodeHandle) -> ([u8; INFO_HASH_LEN], SocketAddr) {
+    (handle.id.into(), handle.addr)
+}
+
 // ---------------------------------------------------------------------------------------------
 // Token store
 
